@@ -39,6 +39,7 @@ PROPS = {
                 "page (end- and start-aligned), immutable inputs read-only, scratch exactly as advertised, plus the ill-shaped classes; any fault/abort is a Crash "
                 "event for which the specification has no transition; every case counts as non-trivial (each is a distinct memory layout)",
         "variants": [{"name": "default"}, {"name": "relcheck", "profile": "relcheck"},
+                     {"name": "dev", "profile": "dev", "run_env": {"RFV_LIGHT": "1"}},
                      {"name": "asan", "toolchain": "nightly", "target": "x86_64-unknown-linux-gnu", "target_dir": "target-asan",
                       "env": {"RUSTFLAGS": "-Zsanitizer=address --cfg rustfft_verif --check-cfg cfg(rustfft_verif)"},
                       "run_env": {"ASAN_OPTIONS": "abort_on_error=1:detect_leaks=0"}, "args": ["--no-guard"], "thorough_only": True}],
@@ -117,6 +118,7 @@ PROPS = {
                 "counting, 24-byte wide; SIMD planners must decline each, the automatic planner must construct; every (type, n, direction); " + NT_PLAN,
     },
     "C15": {
+        "variants": [{"name": "default"}, {"name": "dev", "profile": "dev", "run_env": {"RFV_LIGHT": "1"}}],
         "driver": "c15", "level": "model_checking", "mc": [MC_LAYER, MC_CALL, MC_DF],
         "rule": "every (planner kind, f32/f64, n): immutable-input calls with k in 1..8 and ill-shaped classes; input bits before/after and read-only input pages; "
                 "every case is non-trivial",
